@@ -297,6 +297,59 @@ func genC18(cs *CaseSet, rng *Rng, tier string, dir string) {
 				sawList = true
 			}
 		}
+		// every fourth history ends with a bundle that is listed, deleted with everything below it and created again
+		// under the same names: the new category is empty, whatever was answered for the old one
+		if h%4 == 1 && !lfProfile {
+			B, C := []byte("zzB"), []byte("zzC")
+			pth := [][]byte{B, C}
+			mkB := func() {
+				st := call(mobius.HandleNewNewsFldr, hotline.TranNewNewsFldr, hotline.NewField(hotline.FieldNewsPath, npField(nil)), hotline.NewField(hotline.FieldFileName, B))
+				ops = append(ops, mkOp(1, "create-bundle", npArg(nil), B))
+				observe(st)
+			}
+			mkC := func() {
+				st := call(mobius.HandleNewNewsCat, hotline.TranNewNewsCat, hotline.NewField(hotline.FieldNewsPath, npField([][]byte{B})), hotline.NewField(hotline.FieldNewsCatName, C))
+				ops = append(ops, mkOp(2, "create-category", npArg([][]byte{B}), C))
+				observe(st)
+			}
+			post := func(id int) {
+				title, data := []byte(fmt.Sprintf("t%d", id)), []byte(fmt.Sprintf("body %d", id))
+				st := call(mobius.HandlePostNewsArt, hotline.TranPostNewsArt, hotline.NewField(hotline.FieldNewsPath, npField(pth)),
+					hotline.NewField(hotline.FieldNewsArtID, be16(0)), hotline.NewField(hotline.FieldNewsArtTitle, title), hotline.NewField(hotline.FieldNewsArtData, data))
+				date := make([]byte, 8)
+				if a := mgr().GetArticle([]string{"zzB", "zzC"}, uint32(id)); a != nil {
+					date = append([]byte{}, a.Date[:]...)
+				}
+				ops = append(ops, mkOp(3, "post", npArg(pth), be32(0), title, admin.UserName, date, data))
+				observe(st)
+			}
+			list := func() {
+				t := hotline.NewTransaction(hotline.TranGetNewsArtNameList, admin.ID, hotline.NewField(hotline.FieldNewsPath, npField(pth)))
+				res, _ := callHandler(mobius.HandleGetNewsArtNameList, admin, &t)
+				var b []byte
+				if len(res) == 1 {
+					b = res[0].GetField(hotline.FieldNewsArtListData).Data
+				}
+				ops = append(ops, mkOp(7, "list-articles", npArg(pth)))
+				obs = append(obs, [][]byte{b})
+			}
+			del := func() {
+				st := call(mobius.HandleDelNewsItem, hotline.TranDelNewsItem, hotline.NewField(hotline.FieldNewsPath, npField([][]byte{B})))
+				ops = append(ops, mkOp(5, "delete-item", npArg([][]byte{B})))
+				observe(st)
+			}
+			mkB()
+			mkC()
+			post(1)
+			post(2)
+			list()
+			del()
+			mkB()
+			mkC()
+			list()
+			post(1)
+			list()
+		}
 		env.StopDrain()
 		kind := "history"
 		if lfProfile {
